@@ -32,6 +32,12 @@ def run(ctx):
                 st = storelib.StoreRun(ctx, "%s-k%d" % (name, k), over, sample=sample, cache=k).run(pool, storelib.default_violation(ctx), cov)
                 full += st["cachefull"]
                 judged += st["replayed"] - st["diverged"]
+        # production capacities, thousands of rows, page cache of 8-64 pages (database >> cache)
+        ks = [8, 12, 16, 32] if ctx.quick() else [6, 8, 10, 12, 16, 24, 32, 64]
+        agg = storelib.random_runs(ctx, pool, cov, [dict(seed=ctx.seed * 1000 + i, n=(220 if ctx.quick() else 600), caps=[], cache=k, pcrash=0, pflush=0, wal=False,
+                                                         maxrows=30, bias="grow") for i, k in enumerate(ks)])
+        judged += agg["runs"]
+        full += agg["cache_full_discarded"]
     finally:
         pool.close()
     cov["cache_full_runs_discarded"] = full
